@@ -266,6 +266,9 @@ func runC06(c *RunCtx) {
 	t := c.T
 	g := &Gen{t: t, cfg: drawCfg(t, c.Thorough)}
 	name := pickType(t, 4)
+	if t.Intn(40) == 0 {
+		lateRegister(c, g, name)
+	}
 	var m any
 	absent := false
 	if c.Thorough && t.Chance(1, 3000) {
@@ -363,6 +366,33 @@ func runC06(c *RunCtx) {
 		}
 		expect = append(expect, want...)
 	}
+	if t.Intn(10) == 0 {
+		// a message the encoder refuses (or, for values outside its guarantee, chokes on) is encoded
+		// into this very buffer first: whatever it appends, what was queued before must stay
+		var bad any
+		dt := discTypes()
+		bn := dt[t.Intn(len(dt))]
+		if t.Intn(3) == 0 {
+			bn = name
+		}
+		bad = g.Value(bn)
+		okBad := breakForEncode(reflect.ValueOf(bad).Elem(), schemaOf(bn))
+		if !okBad || t.Intn(4) == 0 {
+			bad = newValue(pickType(t, 2)) // constructor/zero value: nested parts absent
+		}
+		before := cloneBytes(buf.Bytes())
+		rb := tryEncode(bad, buf)
+		if rb.Err != nil || rb.Panic != nil {
+			c.Fire("hist.failed-encode-into-this-buffer")
+			c.Oracle("prior-bytes-survive-a-failed-encode")
+			after := buf.Bytes()
+			if len(after) < len(before) || !bytes.Equal(after[:len(before)], before) {
+				c.Fail("C06/prior-bytes-changed", typeNameOf(bad)+":failed-encode", "an Encode of %s that failed (err=%v panic=%v) altered bytes that were already in the buffer (history %s): %d unread bytes before, %d after", typeNameOf(bad), rb.Err, rb.Panic != nil, h.desc, len(before), len(after))
+				return
+			}
+		}
+		expect = cloneBytes(buf.Bytes())
+	}
 	check("encode", m, ref)
 	c.fireHistory(h, buf)
 	re := t.Intn(3)
@@ -458,11 +488,9 @@ func runFrame(c *RunCtx, prop string) {
 	} else if geom.SumField != "" && getBits(frameField(m, geom.SumField)) != 0 {
 		c.Fire("hist.stale")
 	}
-	if prop == "C04" {
-		if cfg, restore := registryConfig(c, t); cfg != "" {
-			defer restore()
-			c.Logf("CONFIGURATION %s", cfg)
-		}
+	if cfg, restore := registryConfigX(c, t, prop == "C04"); cfg != "" {
+		defer restore()
+		c.Logf("CONFIGURATION %s", cfg)
 	}
 	// trivial history first
 	refObj, ref, ok := refEncode(m)
